@@ -828,6 +828,105 @@ func genFacts(repo string) string {
 	sb.WriteString(strings.Join(delPreds, ",\n"))
 	sb.WriteString("\n]\n")
 
+	// (3b) the guard of duplicate-ack ("early") retransmission: right-hand side of every definition of
+	// a variable named satisfyEarlyRetransmission, and the abandonment test on txCount
+	sb.WriteString("\n/-- (function, right-hand side) of every definition of `satisfyEarlyRetransmission` -/\ndef earlyRetransmissionGuards : List (String × String) := [\n")
+	first = true
+	var abandon []string
+	for _, rel := range protoFiles {
+		f := load(rel)
+		if f == nil {
+			continue
+		}
+		for _, d := range f.Decls {
+			fd, ok := d.(*ast.FuncDecl)
+			if !ok || fd.Body == nil {
+				continue
+			}
+			ast.Inspect(fd.Body, func(n ast.Node) bool {
+				switch x := n.(type) {
+				case *ast.AssignStmt:
+					for i, l := range x.Lhs {
+						if id, ok := l.(*ast.Ident); ok && id.Name == "satisfyEarlyRetransmission" && i < len(x.Rhs) {
+							if !first {
+								sb.WriteString(",\n")
+							}
+							first = false
+							fmt.Fprintf(&sb, "  (%q, %q)", funcName(fd), nodeString(fset, x.Rhs[i]))
+						}
+					}
+				case *ast.IfStmt:
+					c := nodeString(fset, x.Cond)
+					if strings.Contains(c, "txCount") && strings.Contains(c, "txCountLimit") {
+						abandon = append(abandon, fmt.Sprintf("  (%q, %q)", funcName(fd), c))
+					}
+				}
+				return true
+			})
+		}
+	}
+	sb.WriteString("\n]\n")
+	sb.WriteString("\n/-- (function, condition) of every `if` that compares txCount with txCountLimit -/\ndef abandonConditions : List (String × String) := [\n")
+	sb.WriteString(strings.Join(abandon, ",\n"))
+	sb.WriteString("\n]\n")
+
+	// (3c) lock discipline of sequence-number assignment: every use of s.nextSend (Load / Add) in
+	// session.go, with whether it lies textually between s.oLock.Lock() and the next
+	// s.oLock.Unlock() of the same function (source order; branches are not interpreted)
+	sb.WriteString("\n/-- (function, expression, textually under oLock) of every nextSend.Load()/Add() in session.go -/\ndef nextSendUses : List (String × String × Bool) := [\n")
+	first = true
+	if f := load("pkg/protocol/session.go"); f != nil {
+		for _, d := range f.Decls {
+			fd, ok := d.(*ast.FuncDecl)
+			if !ok || fd.Body == nil {
+				continue
+			}
+			type ev struct {
+				pos  token.Pos
+				kind int // 1 lock, 2 unlock, 3 use
+				text string
+			}
+			var evs []ev
+			ast.Inspect(fd.Body, func(n ast.Node) bool {
+				ce, ok := n.(*ast.CallExpr)
+				if !ok {
+					return true
+				}
+				se, ok := ce.Fun.(*ast.SelectorExpr)
+				if !ok {
+					return true
+				}
+				recv := nodeString(fset, se.X)
+				switch {
+				case recv == "s.oLock" && se.Sel.Name == "Lock":
+					evs = append(evs, ev{ce.Pos(), 1, ""})
+				case recv == "s.oLock" && se.Sel.Name == "Unlock":
+					evs = append(evs, ev{ce.Pos(), 2, ""})
+				case recv == "s.nextSend" && (se.Sel.Name == "Load" || se.Sel.Name == "Add"):
+					evs = append(evs, ev{ce.Pos(), 3, nodeString(fset, ce)})
+				}
+				return true
+			})
+			sort.Slice(evs, func(i, j int) bool { return evs[i].pos < evs[j].pos })
+			held := false
+			for _, e := range evs {
+				switch e.kind {
+				case 1:
+					held = true
+				case 2:
+					held = false
+				case 3:
+					if !first {
+						sb.WriteString(",\n")
+					}
+					first = false
+					fmt.Fprintf(&sb, "  (%q, %q, %v)", funcName(fd), e.text, held)
+				}
+			}
+		}
+	}
+	sb.WriteString("\n]\n")
+
 	// (4) every network write in pkg/protocol: calls whose selector is Write/WriteTo on something
 	// ending in "conn" (the underlay's network connection)
 	sb.WriteString("\n/-- (function, callee expression) of every `conn.Write`/`conn.WriteTo` in pkg/protocol -/\ndef networkWrites : List (String × String) := [\n")
@@ -949,6 +1048,9 @@ func genFacts(repo string) string {
 	}
 	sb.WriteString("\n]\n")
 	sb.WriteString(genCloseFacts(repo)) // C03: close-path facts (closefacts.go)
+	// (7…) facts for C10 (dispatch guards, typed errors, owner check): c10facts.go
+	sb.WriteString(genFactsC10(repo, fset, load))
+	sb.WriteString(genFactsC06(repo, fset, load)) // C06: replay cache consultation facts (c06facts.go)
 	sb.WriteString("\nend Mieru.Gen.Facts\n")
 	return sb.String()
 }
